@@ -32,6 +32,10 @@ type FileSpec struct {
 	ExtraB  bool      `json:"extra_before,omitempty"` // another subfield before BC
 	ExtraA  bool      `json:"extra_after,omitempty"`  // another subfield after BC
 	Stored  bool      `json:"stored,omitempty"`
+	// ExtraBC: a subfield before BC whose payload spells a BC subfield
+	// ("BC\x02\x00" and a size) - valid RFC 1952, and what a reader that
+	// searches the extra field for the byte pattern trips over
+	ExtraBC bool `json:"extra_with_bc_pattern,omitempty"`
 }
 
 // Build returns the file image.
@@ -44,6 +48,9 @@ func (fs *FileSpec) Build() []byte {
 		}
 		if fs.ExtraA {
 			o.After = []Subfield{{'Y', 'a', []byte{9}}}
+		}
+		if fs.ExtraBC {
+			o.Before = append(o.Before, Subfield{'X', 'X', []byte{'B', 'C', 2, 0, 0x28, 0}})
 		}
 		img = append(img, EncodeMember(p.Bytes(), o)...)
 	}
